@@ -258,6 +258,26 @@ def _menus():
         path = os.path.join(os.path.dirname(sd.__file__), sd.DATABASES[name])
         return np.load(path)
 
+    def _sudoku_near_db():
+        """64 nearly solved puzzles (2-4 empty cells) for the shipped DatabaseGenerator: solved grids obtained from the
+        standard pattern by digit relabelling and row swaps inside a band, so that *solved* endings are reached in a
+        few steps."""
+        base = np.array([[(3 * (r % 3) + r // 3 + c) % 9 + 1 for c in range(9)] for r in range(9)], np.int32)
+        out = []
+        for i in range(64):
+            g = base.copy()
+            perm = np.roll(np.arange(1, 10), i % 9)
+            g = perm[g - 1]
+            if i % 2:
+                g[[0, 1]] = g[[1, 0]]
+            if i % 3 == 0:
+                g[[3, 5]] = g[[5, 3]]
+            for j in range(2 + i % 3):
+                g[(i * 7 + j * 4) % 9, (i * 5 + j * 3) % 9] = 0
+            out.append(g)
+        return np.stack(out, 0)
+
+    add("Sudoku", "near", lambda **k: E.Sudoku(generator=DatabaseGenerator(_sudoku_near_db())))
     add("Sudoku", "dummy", lambda **k: E.Sudoku(generator=DummyGenerator()))
     add("Sudoku", "veryeasy", lambda **k: E.Sudoku(generator=DatabaseGenerator(_sudoku_db("very-easy"))))
     add("Sudoku", "mixed", lambda **k: E.Sudoku())
@@ -592,7 +612,7 @@ def entries(env: str) -> list:
 QUICK = {
     "Game2048": ["b3", "b4"], "GraphColoring": ["n6p8", "n20p8", "n40p3", "n130p1"], "Minesweeper": ["r3c5m3", "default", "r2c2m1", "r12c12m20", "r4c4m15"],
     "RubiksCube": ["n2s1t3", "n3s7t7"], "SlidingTilePuzzle": ["g3m50t7d", "g2m1t3s", "g12m300t60d"],
-    "Sudoku": ["veryeasy", "dummy", "veryeasy_u8"], "BinPack": ["r10e20s2", "r5e10s1o6", "r10e30o8huge"], "FlatPack": ["r2c3b", "r3c2c"],
+    "Sudoku": ["veryeasy", "dummy", "veryeasy_u8", "near"], "BinPack": ["r10e20s2", "r5e10s1o6", "r10e30o8huge"], "FlatPack": ["r2c3b", "r3c2c"],
     "JobShop": ["j3m2o3d2", "j5m4o4d4", "j40m4o3d4", "j130m3o2d3"], "Knapsack": ["n10s", "n50d", "q8d", "n130d"], "Tetris": ["r6c5t400", "r10c10t400"],
     "Cleaner": ["r3c7a1t7", "r5c11a2tNone", "r3c3a2tNone", "r4c6a2t12p0", "r13c13a3tNone"], "Connector": ["g5a2t7rw", "g6a3t50rw", "g5a2t12rwc20s0", "g12a48t50rw", "g6a5t30uni"],
     "CVRP": ["n5s", "n20d", "zb6d", "n130d"], "LevelBasedForaging": ["g6a2f2v2l2cVNp0t100", "g8a3f3v3l3nGRp5t100", "g7a2f3v7l2nGRp0t40", "g5a3f1v5l2nVNp0t40", "g8a3f3v5l2nVNp0t40"],
